@@ -85,12 +85,10 @@ class CoETerminal(busmodel.TerminalModel):
         self.messages.append(("out", dlen + 6))
         self.counters.append(int((typ >> 4) & 7))
         if not bool(dlen + 6 <= self.out_sz):
-            self.violations.append("mailbox message longer than the mailbox")
-            return
+            raise busmodel.Rejected("mailbox message longer than the mailbox")
         if not bool(dlen + 6 == total):
-            self.violations.append("mailbox length field differs from the "
-                                   "bytes written")
-            return
+            raise busmodel.Rejected("mailbox length field differs from the "
+                                    "bytes written")
         if int(typ & 0xf) != 3:
             raise ProtocolError("not CoE")
         body = msg[6:]
